@@ -6,11 +6,16 @@
      division guard    1169-1180   j ok; hne v,0; j division_by_zero; halt; ok: div/mod d,l,v
      index guard       1228-1238   j ok; hltu i,len; j out_of_bounds; halt; ok:
      VLA length guard  800-812     j ok; hleu len,max_length; j stack_overflow; halt; ok:
-                                   (only when the element type is NOT byte_sized)
+                                   (for every element type except BYTE, since commit 661e8e7;
+                                    before it: only when the element type was not byte_sized)
      VLA space guard   817-834     j ok; sub r1,fp,ap; sub r1,r1,N'; hgeu r1,size; j stack_overflow; halt; ok:
      bool array size   1446-1455   add r,len,7; asr r,[r],3
 
-   Known defect F4 (vla_guard_bool_refuted): `bool a[n]` with n in -7..-1 passes every guard.
+   Former defect F4 (fixed by 661e8e7): WITHOUT a length guard `bool a[n]` with n in -7..-1 passes
+   the space guard (vla_guard_bool_without_length_guard_refuted: why the guard is needed).
+   With it (vla_bool_length_guard_rejects_negative, vla_bool_guards_sound) the BOOL guards are
+   sound; they are not exact for the seven lengths max_signed-6..max_signed, which are always
+   rejected (vla_bool_near_max_rejected, vla_bool_near_max_spurious_overflow).
 
    Section C of the component `idioms`. *)
 From Coq Require Import ZArith List Bool Lia.
@@ -22,8 +27,6 @@ Ltac Zify.zify_post_hook ::= Z.to_euclidean_division_equations.
 Section Guards.
 Variable w : Z.
 Hypothesis Hw : 2 <= w.
-Variable code : Z -> option instr.
-Variable cmem : mem.
 
 Notation W := (Machine.W w).
 Notation wrap := (Machine.wrap w).
@@ -31,10 +34,6 @@ Notation sgn := (Machine.sgn w).
 Notation lw := (Machine.lw w).
 Notation sw := (Machine.sw w).
 Notation inrange := (WordLemmas.inrange w).
-Notation act := (Machine.act w code cmem).
-Notation Halts := (HidV.Sphinx.Halts.Halts act).
-Notation runs := (HidV.Sphinx.Halts.runs act).
-Notation oval := (Idioms.oval w cmem).
 
 Let Hw1 : 1 <= w. Proof. lia. Qed.
 
@@ -56,6 +55,17 @@ Proof.
     lia.
 Qed.
 
+(* the no-wrap side conditions of Idioms.stack_monotone_* from __post_init__'s stack bound:
+   stack_end = (stack+5)*w + e where e (RA word + entry arguments, gen_lines 285-292) is NOT
+   covered by the bound; any e <= W/2 still keeps every gap fp - ap below W *)
+Theorem post_init_gap_no_wrap stack e ap fp : stack_size_rejected w stack = false ->
+  0 <= e <= W / 2 -> 0 <= ap <= fp -> fp <= (stack + 5) * w + e ->
+  (stack + 5) * w <= max_signed w /\ 0 <= fp - ap < W.
+Proof.
+  intros R E A F. unfold stack_size_rejected in R. rewrite Z.gtb_ltb in R. apply Z.ltb_ge in R.
+  split; [exact R|]. rewrite max_signed_eq in R. pose proof (W_even w Hw1). lia.
+Qed.
+
 (* ================================================================================= *)
 (* division guard                                                                     *)
 (* ================================================================================= *)
@@ -75,59 +85,6 @@ Proof.
   destruct Hop; subst op; cbn [arith]; destruct (Z.eqb_spec (sgn x) 0) as [S|S];
     destruct (Z.eqb_spec x 0) as [Z0|Z0]; cbn [negb] in E2; try discriminate; split; intro; congruence.
 Qed.
-(* p: j OK; p+1: hne v,0; p+2: j DZ; p+3: halt; p+4: div/mod d,l,v *)
-Theorem div_guard_idiom p m ok err e v x op d l lx :
-  code p = Some (IJ ok) -> oval m ok = Some (p + 4) ->
-  code (p + 1) = Some (IHc Cne v (Imm 0)) -> oval m v = Some x -> inrange x ->
-  code (p + 2) = Some (IJ err) -> code (p + 3) = Some IHalt -> oval m err = Some e ->
-  code (p + 4) = Some (IArith op (St d) l v) -> (op = Adiv \/ op = Amod) -> oval m l = Some lx ->
-  inb m d w = true ->
-  (* passes iff divisor <> 0; then memory is unchanged and the division does not fault *)
-  (x <> 0 -> runs (mk p m) [] (mk (p + 4) m) /\
-             exists r, arith w op lx x = Some r /\ act (mk (p + 4) m) = ANext (mk (p + 4 + 1) (sw m d r)) None) /\
-  (* divisor = 0 and the stub is absorbing: committed to the stub, nothing written, no halt;
-     the unguarded instruction would have faulted *)
-  (x = 0 -> ~ Halts (mk e m) ->
-     runs (mk p m) [] (mk e m) /\ ~ Halts (mk p m) /\ act (mk (p + 4) m) = AFault).
-Proof.
-  intros Cj Ok Cc Av Hx Ce Ch Er Cd Hop Al Id.
-  pose proof (guard_idiom w code cmem p m ok err e Cne v (Imm 0) x (wrap 0) Cj Ok Cc Av (oval_imm w cmem m 0) Ce Ch Er)
-    as [Gp [Gf _]].
-  destruct (div_guard_cond x Hx) as [E _]. rewrite E in Gp, Gf.
-  split.
-  - intros Nz. split.
-    + apply Gp. destruct (Z.eqb_spec x 0); [contradiction | reflexivity].
-    + destruct (arith w op lx x) as [r|] eqn:Ar.
-      * exists r. split; [reflexivity|]. eapply act_arith; eauto.
-      * exfalso. apply Nz. apply (div_faults_iff op lx x Hx Hop). exact Ar.
-  - intros Z0 N. destruct (Gf) as [R N0]; [subst x; reflexivity | exact N |].
-    split; [exact R | split; [exact N0|]].
-    unfold Machine.act; cbn [pc]; rewrite Cd; cbn [exec]. rewrite !val_oval; cbn [mm]. rewrite Al, Av.
-    replace (arith w op lx x) with (@None Z); [reflexivity|].
-    symmetry. apply (div_faults_iff op lx x Hx Hop). exact Z0.
-Qed.
-
-(* ================================================================================= *)
-(* index guard                                                                        *)
-(* ================================================================================= *)
-(* p: j OK; p+1: hltu i,len; p+2: j OOB; p+3: halt; OK = p+4.
-   For a length 0 <= len <= max_signed the guard passes iff 0 <= sgn i < len. *)
-Theorem index_guard_idiom p m ok err e io lo i len :
-  code p = Some (IJ ok) -> oval m ok = Some (p + 4) ->
-  code (p + 1) = Some (IHc Cltu io lo) -> oval m io = Some i -> oval m lo = Some len ->
-  inrange i -> 0 <= len < W / 2 ->
-  code (p + 2) = Some (IJ err) -> code (p + 3) = Some IHalt -> oval m err = Some e ->
-  (0 <= sgn i < len -> runs (mk p m) [] (mk (p + 4) m)) /\
-  (~ (0 <= sgn i < len) -> ~ Halts (mk e m) -> runs (mk p m) [] (mk e m) /\ ~ Halts (mk p m)).
-Proof.
-  intros Cj Ok Cc Ai Al Hi Hl Ce Ch Er.
-  pose proof (guard_idiom w code cmem p m ok err e Cltu io lo i len Cj Ok Cc Ai Al Ce Ch Er) as [Gp [Gf _]].
-  rewrite (index_check_exact w Hw1 i len Hi Hl) in Gp, Gf.
-  split; intros X.
-  - apply Gp. apply andb_true_intro. split; [apply Z.leb_le | apply Z.ltb_lt]; lia.
-  - apply Gf. destruct (Z.leb_spec 0 (sgn i)); destruct (Z.ltb_spec (sgn i) len); cbn; try reflexivity. lia.
-Qed.
-
 (* ================================================================================= *)
 (* VLA length guard                                                                   *)
 (* ================================================================================= *)
@@ -141,22 +98,6 @@ Proof.
   - destruct (Z.leb_spec 0 len); [reflexivity | lia].
   - destruct (Z.leb_spec 0 (len - W)); [lia|]. destruct (Z.leb_spec len ML); [lia | reflexivity].
 Qed.
-(* p: j OK; p+1: hleu len,max_length(d); p+2: j SO; p+3: halt; OK = p+4 *)
-Theorem vla_length_guard_idiom p m ok err e lo len d :
-  code p = Some (IJ ok) -> oval m ok = Some (p + 4) ->
-  code (p + 1) = Some (IHc Cleu lo (Imm (max_length w d))) -> oval m lo = Some len -> inrange len ->
-  code (p + 2) = Some (IJ err) -> code (p + 3) = Some IHalt -> oval m err = Some e ->
-  (0 <= sgn len <= max_length w d -> runs (mk p m) [] (mk (p + 4) m)) /\
-  (~ (0 <= sgn len <= max_length w d) -> ~ Halts (mk e m) -> runs (mk p m) [] (mk e m) /\ ~ Halts (mk p m)).
-Proof.
-  intros Cj Ok Cc Al Hl Ce Ch Er. pose proof (max_length_bound d) as [[M0 _] M1].
-  pose proof (guard_idiom w code cmem p m ok err e Cleu lo (Imm (max_length w d)) len (wrap (max_length w d))
-                Cj Ok Cc Al (oval_imm w cmem m _) Ce Ch Er) as [Gp [Gf _]].
-  rewrite (vla_length_cond len (max_length w d) Hl) in Gp, Gf by lia.
-  split; intros X.
-  - apply Gp. apply andb_true_intro. split; apply Z.leb_le; lia.
-  - apply Gf. destruct (Z.leb_spec 0 (sgn len)); destruct (Z.leb_spec (sgn len) (max_length w d)); cbn; try reflexivity. lia.
-Qed.
 (* what the length guard buys: for word-sized elements the size computation `mul r,len,w`
    cannot overflow, and equals the layout's array_size *)
 Theorem vla_length_no_overflow d len : byte_sized d = false -> frame_size w d = w -> inrange len ->
@@ -165,7 +106,7 @@ Theorem vla_length_no_overflow d len : byte_sized d = false -> frame_size w d = 
   0 <= array_size w d (sgn len) <= max_signed w.
 Proof.
   intros Bs Fs Hl Hn. pose proof (half_pos w Hw1) as Hp.
-  assert (Dn : dtype_eqb d DBOOL = false) by (destruct d; cbn in *; congruence).
+  assert (Dn : dtype_eqb d DBOOL = false) by (revert Bs; destruct d; cbn; congruence).
   unfold array_size. rewrite Dn, Fs. unfold max_length in Hn. rewrite Bs in Hn.
   assert (Ww : w < W / 2).
   { rewrite (W_half w Hw1). pose proof (Z.pow_gt_lin_r 2 (8 * w - 1)). lia. }
@@ -217,6 +158,220 @@ Qed.
 (* ================================================================================= *)
 Definition bool_size_word (len : Z) : Z := wrap (Z.shiftr (sgn (wrap (len + 7))) 3).
 
+(* it is the layout's array_size whenever len+7 does not overflow *)
+Theorem bool_size_matches_layout len : inrange len -> sgn len + 7 < W / 2 ->
+  bool_size_word len = wrap (array_size w DBOOL (sgn len)).
+Proof.
+  intros Hl Hb. unfold bool_size_word, array_size. cbn [dtype_eqb].
+  replace (wrap (len + 7)) with (wrap (sgn len + 7)).
+  - rewrite (sgn_wrap_small w Hw1); [reflexivity|]. pose proof (sgn_range w Hw1 len Hl). lia.
+  - rewrite <- (sgn_lit 7) at 1 by lia. rewrite <- (wrap_add_sgn w Hw1 len 7); [reflexivity | exact Hl |].
+    unfold WordLemmas.inrange. pose proof (W_ge w Hw1). lia.
+Qed.
+(* WHY BOOL NEEDS THE LENGTH GUARD: for the lengths -7..-1 (words W-7..W-1) the size is ZERO, at
+   every word size *)
+Theorem bool_size_of_small_negative k : 1 <= k <= 7 ->
+  sgn (W - k) = - k /\ bool_size_word (W - k) = 0 /\ array_size w DBOOL (- k) = 0.
+Proof.
+  intros K. pose proof (W_ge w Hw1). pose proof (half_pos w Hw1). pose proof (W_even w Hw1).
+  split; [|split].
+  - unfold Machine.sgn. destruct (Z.ltb_spec (W - k) (W / 2)); lia.
+  - unfold bool_size_word. replace (wrap (W - k + 7)) with (7 - k).
+    + rewrite sgn_lit by lia.
+      assert (S0 : Z.shiftr (7 - k) 3 = 0) by (rewrite Z.shiftr_div_pow2 by lia; apply Z.div_small; change (2 ^ 3) with 8; lia).
+      rewrite S0. apply wrap_lit; lia.
+    + unfold Machine.wrap. apply Z.mod_unique_pos with (q := 1); lia.
+  - unfold array_size. cbn [dtype_eqb]. rewrite Z.shiftr_div_pow2 by lia. apply Z.div_small. change (2 ^ 3) with 8. lia.
+Qed.
+(* hence the space guard alone accepts them whatever the gap (given only the reserve invariant) *)
+Theorem vla_bool_negative_passes_space_guard k g N' : 1 <= k <= 7 -> 0 <= N' <= g -> g < W ->
+  cond_holds w Cgeu (wrap (wrap g - wrap N')) (bool_size_word (W - k)) = true.
+Proof.
+  intros K G G'. destruct (bool_size_of_small_negative k K) as [_ [Z0 _]]. rewrite Z0.
+  rewrite vla_space_cond_exact by lia. apply Z.leb_le. lia.
+Qed.
+
+
+(* ---------- BOOL with the length guard (the code as emitted since 661e8e7) ---------- *)
+Lemma max_length_bool : max_length w DBOOL = max_signed w.
+Proof. reflexivity. Qed.
+(* the length guard `hleu len, max_length BOOL` passes exactly on the non-negative lengths *)
+Theorem vla_bool_length_cond len : inrange len ->
+  cond_holds w Cleu len (wrap (max_length w DBOOL)) = (0 <=? sgn len).
+Proof.
+  intros Hl. pose proof (half_pos w Hw1). pose proof (sgn_range w Hw1 len Hl).
+  rewrite (vla_length_cond len (max_length w DBOOL) Hl) by (rewrite max_length_bool, max_signed_eq; lia).
+  rewrite max_length_bool, max_signed_eq.
+  destruct (Z.leb_spec (sgn len) (W / 2 - 1)); [apply andb_true_r | lia].
+Qed.
+(* below max_signed-6 the size computation is exact, and a non-negative number below W/2 *)
+Theorem bool_size_sound len : inrange len -> 0 <= sgn len -> sgn len + 7 < W / 2 ->
+  bool_size_word len = array_size w DBOOL (sgn len) /\ 0 <= array_size w DBOOL (sgn len) < W / 2.
+Proof.
+  intros Hl Hn Hb. rewrite (bool_size_matches_layout len Hl Hb).
+  assert (R : 0 <= array_size w DBOOL (sgn len) < W / 2).
+  { unfold array_size. cbn [dtype_eqb]. rewrite Z.shiftr_div_pow2 by lia. change (2 ^ 3) with 8. lia. }
+  split; [|exact R]. apply wrap_small. unfold WordLemmas.inrange. pose proof (W_even w Hw1). lia.
+Qed.
+(* W is a multiple of 256 *)
+Lemma W_256 : exists K, 1 <= K /\ W = 256 * K.
+Proof.
+  exists (2 ^ (8 * w - 8)). split.
+  - assert (0 < 2 ^ (8 * w - 8)) by (apply Z.pow_pos_nonneg; lia). lia.
+  - unfold Machine.W. replace (8 * w) with (8 + (8 * w - 8)) at 1 by ring.
+    rewrite Z.pow_add_r by lia. reflexivity.
+Qed.
+(* the seven lengths max_signed-6..max_signed: len+7 overflows into the sign bit, the arithmetic
+   shift keeps it negative, and the size word is W - W/16 (the true size would be W/16 bytes) *)
+Theorem bool_size_near_max len : inrange len -> W / 2 - 7 <= sgn len ->
+  bool_size_word len = W - W / 16 /\ array_size w DBOOL (sgn len) = W / 16.
+Proof.
+  intros Hl Hn. destruct W_256 as [K [K1 WK]]. pose proof (W_even w Hw1) as We.
+  pose proof (sgn_range w Hw1 len Hl) as Sr. unfold WordLemmas.inrange in Hl.
+  assert (Sl : sgn len = len) by (destruct (sgn_cases w len Hl) as [[_ E]|[X E]]; [exact E | lia]).
+  rewrite Sl in *.
+  assert (H2 : W / 2 = 128 * K) by lia. assert (H16 : W / 16 = 16 * K) by lia.
+  split.
+  - unfold bool_size_word.
+    rewrite (wrap_small w (len + 7)) by (unfold WordLemmas.inrange; lia).
+    assert (Sg : sgn (len + 7) = len + 7 - W).
+    { unfold Machine.sgn. destruct (Z.ltb_spec (len + 7) (W / 2)); lia. }
+    rewrite Sg, Z.shiftr_div_pow2 by lia. change (2 ^ 3) with 8.
+    assert (D : (len + 7 - W) / 8 = - (16 * K)) by lia. rewrite D.
+    unfold Machine.wrap. rewrite H16. symmetry. apply Z.mod_unique_pos with (q := -1); lia.
+  - unfold array_size. cbn [dtype_eqb]. rewrite Z.shiftr_div_pow2 by lia. change (2 ^ 3) with 8. lia.
+Qed.
+(* ... so the space guard rejects them at every gap the stack bound allows (g < W/2), although
+   W/16 bytes might well be available: sound, not exact *)
+Theorem vla_bool_near_max_rejected g N' len : inrange len -> W / 2 - 7 <= sgn len ->
+  0 <= N' <= g -> g < W / 2 ->
+  cond_holds w Cgeu (wrap (wrap g - wrap N')) (bool_size_word len) = false.
+Proof.
+  intros Hl Hn G G'. destruct (bool_size_near_max len Hl Hn) as [E _]. rewrite E.
+  destruct W_256 as [K [K1 WK]]. pose proof (W_even w Hw1).
+  rewrite vla_space_cond_exact by lia. apply Z.leb_gt. lia.
+Qed.
+(* the two BOOL guards together: if the length guard passed (0 <= sgn len) and the space guard
+   passes (under the reserve invariant and the stack bound), then the size word is the layout's
+   array_size of the length and it fits: the allocation keeps the reserve *)
+Theorem vla_bool_guards_sound g N' len : inrange len -> 0 <= sgn len ->
+  0 <= N' <= g -> g < W / 2 ->
+  cond_holds w Cgeu (wrap (wrap g - wrap N')) (bool_size_word len) = true ->
+  sgn len + 7 < W / 2 /\ bool_size_word len = array_size w DBOOL (sgn len) /\
+  array_size w DBOOL (sgn len) + N' <= g.
+Proof.
+  intros Hl Hn G G' H.
+  destruct (Z_lt_le_dec (sgn len + 7) (W / 2)) as [Lt|Ge].
+  - destruct (bool_size_sound len Hl Hn Lt) as [E R]. split; [exact Lt | split; [exact E|]].
+    rewrite E in H. pose proof (W_even w Hw1). rewrite vla_space_cond_exact in H by lia. apply Z.leb_le in H. exact H.
+  - rewrite vla_bool_near_max_rejected in H by (assumption || lia). discriminate.
+Qed.
+(* and the converse below the seven top lengths: exactness *)
+Theorem vla_bool_space_guard_exact g N' len : inrange len -> 0 <= sgn len -> sgn len + 7 < W / 2 ->
+  0 <= N' <= g -> g < W ->
+  cond_holds w Cgeu (wrap (wrap g - wrap N')) (bool_size_word len) = (array_size w DBOOL (sgn len) + N' <=? g).
+Proof.
+  intros Hl Hn Lt G G'. destruct (bool_size_sound len Hl Hn Lt) as [E R]. rewrite E.
+  apply vla_space_cond_exact; lia.
+Qed.
+
+(* ================================================================================= *)
+(* the guards as idioms (from here on `code` is in scope)                              *)
+(* ================================================================================= *)
+Variable code : Z -> option instr.
+Variable cmem : mem.
+Notation act := (Machine.act w code cmem).
+Notation Halts := (HidV.Sphinx.Halts.Halts act).
+Notation runs := (HidV.Sphinx.Halts.runs act).
+Notation oval := (Idioms.oval w cmem).
+
+(* division guard *)
+(* p: j OK; p+1: hne v,0; p+2: j DZ; p+3: halt; p+4: div/mod d,l,v *)
+Theorem div_guard_idiom p m ok err e v x op d l lx :
+  code p = Some (IJ ok) -> oval m ok = Some (p + 4) ->
+  code (p + 1) = Some (IHc Cne v (Imm 0)) -> oval m v = Some x -> inrange x ->
+  code (p + 2) = Some (IJ err) -> code (p + 3) = Some IHalt -> oval m err = Some e ->
+  code (p + 4) = Some (IArith op (St d) l v) -> (op = Adiv \/ op = Amod) -> oval m l = Some lx ->
+  inb m d w = true ->
+  (* passes iff divisor <> 0; then memory is unchanged and the division does not fault *)
+  (x <> 0 -> runs (mk p m) [] (mk (p + 4) m) /\
+             exists r, arith w op lx x = Some r /\ act (mk (p + 4) m) = ANext (mk (p + 4 + 1) (sw m d r)) None) /\
+  (* divisor = 0 and the stub is absorbing: committed to the stub, nothing written, no halt;
+     the unguarded instruction would have faulted *)
+  (x = 0 -> ~ Halts (mk e m) ->
+     runs (mk p m) [] (mk e m) /\ ~ Halts (mk p m) /\ act (mk (p + 4) m) = AFault).
+Proof.
+  intros Cj Ok Cc Av Hx Ce Ch Er Cd Hop Al Id.
+  pose proof (guard_idiom w code cmem p m ok err e Cne v (Imm 0) x (wrap 0) Cj Ok Cc Av (oval_imm w cmem m 0) Ce Ch Er)
+    as [Gp [Gf _]].
+  destruct (div_guard_cond x Hx) as [E _]. rewrite E in Gp, Gf.
+  split.
+  - intros Nz. split.
+    + apply Gp. destruct (Z.eqb_spec x 0); [contradiction | reflexivity].
+    + destruct (arith w op lx x) as [r|] eqn:Ar.
+      * exists r. split; [reflexivity|]. eapply act_arith; eauto.
+      * exfalso. apply Nz. apply (div_faults_iff op lx x Hx Hop). exact Ar.
+  - intros Z0 N. destruct (Gf) as [R N0]; [subst x; reflexivity | exact N |].
+    split; [exact R | split; [exact N0|]].
+    unfold Machine.act; cbn [pc]; rewrite Cd; cbn [exec]. rewrite !val_oval; cbn [mm]. rewrite Al, Av.
+    replace (arith w op lx x) with (@None Z); [reflexivity|].
+    symmetry. apply (div_faults_iff op lx x Hx Hop). exact Z0.
+Qed.
+
+(* index guard *)
+(* p: j OK; p+1: hltu i,len; p+2: j OOB; p+3: halt; OK = p+4.
+   For a length 0 <= len <= max_signed the guard passes iff 0 <= sgn i < len. *)
+Theorem index_guard_idiom p m ok err e io lo i len :
+  code p = Some (IJ ok) -> oval m ok = Some (p + 4) ->
+  code (p + 1) = Some (IHc Cltu io lo) -> oval m io = Some i -> oval m lo = Some len ->
+  inrange i -> 0 <= len < W / 2 ->
+  code (p + 2) = Some (IJ err) -> code (p + 3) = Some IHalt -> oval m err = Some e ->
+  (0 <= sgn i < len -> runs (mk p m) [] (mk (p + 4) m)) /\
+  (~ (0 <= sgn i < len) -> ~ Halts (mk e m) -> runs (mk p m) [] (mk e m) /\ ~ Halts (mk p m)).
+Proof.
+  intros Cj Ok Cc Ai Al Hi Hl Ce Ch Er.
+  pose proof (guard_idiom w code cmem p m ok err e Cltu io lo i len Cj Ok Cc Ai Al Ce Ch Er) as [Gp [Gf _]].
+  rewrite (index_check_exact w Hw1 i len Hi Hl) in Gp, Gf.
+  split; intros X.
+  - apply Gp. apply andb_true_intro. split; [apply Z.leb_le | apply Z.ltb_lt]; lia.
+  - apply Gf. destruct (Z.leb_spec 0 (sgn i)); destruct (Z.ltb_spec (sgn i) len); cbn; try reflexivity. lia.
+Qed.
+
+(* VLA length guard *)
+(* p: j OK; p+1: hleu len,max_length(d); p+2: j SO; p+3: halt; OK = p+4 *)
+Theorem vla_length_guard_idiom p m ok err e lo len d :
+  code p = Some (IJ ok) -> oval m ok = Some (p + 4) ->
+  code (p + 1) = Some (IHc Cleu lo (Imm (max_length w d))) -> oval m lo = Some len -> inrange len ->
+  code (p + 2) = Some (IJ err) -> code (p + 3) = Some IHalt -> oval m err = Some e ->
+  (0 <= sgn len <= max_length w d -> runs (mk p m) [] (mk (p + 4) m)) /\
+  (~ (0 <= sgn len <= max_length w d) -> ~ Halts (mk e m) -> runs (mk p m) [] (mk e m) /\ ~ Halts (mk p m)).
+Proof.
+  intros Cj Ok Cc Al Hl Ce Ch Er. pose proof (max_length_bound d) as [[M0 _] M1].
+  pose proof (guard_idiom w code cmem p m ok err e Cleu lo (Imm (max_length w d)) len (wrap (max_length w d))
+                Cj Ok Cc Al (oval_imm w cmem m _) Ce Ch Er) as [Gp [Gf _]].
+  rewrite (vla_length_cond len (max_length w d) Hl) in Gp, Gf by lia.
+  split; intros X.
+  - apply Gp. apply andb_true_intro. split; apply Z.leb_le; lia.
+  - apply Gf. destruct (Z.leb_spec 0 (sgn len)); destruct (Z.leb_spec (sgn len) (max_length w d)); cbn; try reflexivity. lia.
+Qed.
+(* BOOL length guard (emitted since 661e8e7): every negative length goes to the stub, every
+   non-negative one passes with memory unchanged *)
+Theorem vla_bool_length_guard_rejects_negative p m ok err e lo len :
+  code p = Some (IJ ok) -> oval m ok = Some (p + 4) ->
+  code (p + 1) = Some (IHc Cleu lo (Imm (max_length w DBOOL))) -> oval m lo = Some len -> inrange len ->
+  code (p + 2) = Some (IJ err) -> code (p + 3) = Some IHalt -> oval m err = Some e ->
+  (sgn len < 0 -> ~ Halts (mk e m) -> runs (mk p m) [] (mk e m) /\ ~ Halts (mk p m)) /\
+  (0 <= sgn len -> runs (mk p m) [] (mk (p + 4) m)).
+Proof.
+  intros Cj Ok Cc Al Hl Ce Ch Er.
+  destruct (vla_length_guard_idiom p m ok err e lo len DBOOL Cj Ok Cc Al Hl Ce Ch Er) as [Gp Gf].
+  pose proof (sgn_range w Hw1 len Hl). pose proof max_signed_eq.
+  split; intros X.
+  - apply Gf. lia.
+  - apply Gp. rewrite max_length_bool. lia.
+Qed.
+
+(* BOOL size computation *)
 Theorem bool_size_idiom p m r lo len :
   code p = Some (IArith Aadd (St r) lo (Imm 7)) ->
   code (p + 1) = Some (IArith Aasr (St r) (St r) (Imm 3)) ->
@@ -237,46 +392,16 @@ Proof.
     pcn. apply runs_refl.
   - unfold m', bool_size_word. now rewrite lw_sw_same by (assumption || lia).
 Qed.
-(* it is the layout's array_size whenever len+7 does not overflow *)
-Theorem bool_size_matches_layout len : inrange len -> sgn len + 7 < W / 2 ->
-  bool_size_word len = wrap (array_size w DBOOL (sgn len)).
-Proof.
-  intros Hl Hb. unfold bool_size_word, array_size. cbn [dtype_eqb].
-  replace (wrap (len + 7)) with (wrap (sgn len + 7)).
-  - rewrite (sgn_wrap_small w Hw1); [reflexivity|]. pose proof (sgn_range w Hw1 len Hl). lia.
-  - rewrite <- (sgn_lit 7) at 1 by lia. rewrite <- (wrap_add_sgn w Hw1 len 7); [reflexivity | exact Hl |].
-    unfold WordLemmas.inrange. pose proof (W_ge w Hw1). lia.
-Qed.
-(* ... and for the lengths -7..-1 (words W-7..W-1) it is ZERO, at every word size *)
-Theorem bool_size_of_small_negative k : 1 <= k <= 7 ->
-  sgn (W - k) = - k /\ bool_size_word (W - k) = 0 /\ array_size w DBOOL (- k) = 0.
-Proof.
-  intros K. pose proof (W_ge w Hw1). pose proof (half_pos w Hw1). pose proof (W_even w Hw1).
-  split; [|split].
-  - unfold Machine.sgn. destruct (Z.ltb_spec (W - k) (W / 2)); lia.
-  - unfold bool_size_word. replace (wrap (W - k + 7)) with (7 - k).
-    + rewrite sgn_lit by lia.
-      assert (S0 : Z.shiftr (7 - k) 3 = 0) by (rewrite Z.shiftr_div_pow2 by lia; apply Z.div_small; change (2 ^ 3) with 8; lia).
-      rewrite S0. apply wrap_lit; lia.
-    + unfold Machine.wrap. apply Z.mod_unique_pos with (q := 1); lia.
-  - unfold array_size. cbn [dtype_eqb]. rewrite Z.shiftr_div_pow2 by lia. apply Z.div_small. change (2 ^ 3) with 8. lia.
-Qed.
-(* hence the space guard accepts them whatever the gap (given only the reserve invariant) *)
-Theorem vla_bool_negative_passes_space_guard k g N' : 1 <= k <= 7 -> 0 <= N' <= g -> g < W ->
-  cond_holds w Cgeu (wrap (wrap g - wrap N')) (bool_size_word (W - k)) = true.
-Proof.
-  intros K G G'. destruct (bool_size_of_small_negative k K) as [_ [Z0 _]]. rewrite Z0.
-  rewrite vla_space_cond_exact by lia. apply Z.leb_le. lia.
-Qed.
 
 End Guards.
 
 (* ================================================================================= *)
-(* F4: the VLA guards do not reject `bool a[-1]` -- machine witness at w = 2           *)
+(* why BOOL needs the length guard (former defect F4): WITHOUT it the guards do not reject
+   `bool a[-1]` -- machine witness at w = 2                                            *)
 (* ================================================================================= *)
 (* state: ap=[0], fp=[2], r0=[4], r1=[6], length slot [8]; stub `stack_overflow` at 9 (absorbing).
-   The emitted sequence for a BOOL ArrayInitializer (checked build; no length guard because
-   byte_sized BOOL = true), from the size computation on: *)
+   The sequence emitted for a BOOL ArrayInitializer BEFORE commit 661e8e7 (checked build; no length
+   guard because byte_sized BOOL = true), from the size computation on: *)
 Definition f4_code : Z -> option instr := code_of [
   IArith Aadd (St 4) (St 8) (Imm 7);        (* 0  add [r0],len,7           *)
   IArith Aasr (St 4) (St 4) (Imm 3);        (* 1  asr [r0],[r0],3          *)
@@ -291,8 +416,8 @@ Definition f4_code : Z -> option instr := code_of [
 (* fp = ap = 0: the stack is EXACTLY full (gap 0); length word = 65535 = -1 *)
 Definition f4_mem : mem := sw 2 (zmem 16) 8 65535.
 
-Theorem vla_guard_bool_refuted :
-  byte_sized DBOOL = true /\                          (* so no `hleu len,max_length` is emitted *)
+Theorem vla_guard_bool_without_length_guard_refuted :
+  byte_sized DBOOL = true /\                          (* so no `hleu len,max_length` was emitted *)
   sgn 2 (lw 2 f4_mem 8) = -1 /\                       (* the requested length is -1 *)
   array_size 2 DBOOL (-1) = 0 /\
   exists m',
@@ -300,7 +425,8 @@ Theorem vla_guard_bool_refuted :
     lw 2 m' 4 = 0 /\                                   (* size 0: `add [ap],[ap],[r0]` allocates nothing *)
     lw 2 m' 0 = lw 2 f4_mem 0 /\ lw 2 m' 2 = lw 2 f4_mem 2 /\      (* ap, fp as before *)
     lw 2 m' 8 = 65535 /\                               (* the array's length word is 65535 *)
-    (forall i, 0 <= i < 65535 -> cond_holds 2 Cltu i (lw 2 m' 8) = true).  (* every such index passes check_index *)
+    (* every index below 65535 passes check_index *)
+    (forall i, 0 <= i < 65535 -> cond_holds 2 Cltu i (lw 2 m' 8) = true).
 Proof.
   split; [reflexivity | split; [reflexivity | split; [reflexivity|]]].
   set (A := act 2 f4_code (zmem 0)).
@@ -351,13 +477,13 @@ Definition c_idx := code_of [IJ (Imm 4); IHc Cltu (St 4) (St 6); IJ (Imm 5); IHa
 Example index_guard_ex_pass : runs (A c_idx) (mk 0 (m_idx 2)) [] (mk 4 (m_idx 2)).
 Proof.
   destruct (index_guard_idiom 2 ltac:(lia) c_idx cm 0 (m_idx 2) (Imm 4) (Imm 5) 5 (St 4) (St 6) 2 3) as [X _];
-    try reflexivity; try (apply ir2; lia); try (vm_compute; split; [intro; discriminate | reflexivity]).
-  apply X. vm_compute. split; [intro; discriminate | reflexivity].
+    try reflexivity; try (apply ir2; lia); try zc.
+  apply X. zc.
 Qed.
 Example index_guard_ex_fail : ~ Halts (A c_idx) (mk 0 (m_idx 65535)).   (* index -1 *)
 Proof.
   destruct (index_guard_idiom 2 ltac:(lia) c_idx cm 0 (m_idx 65535) (Imm 4) (Imm 5) 5 (St 4) (St 6) 65535 3) as [_ X];
-    try reflexivity; try (apply ir2; lia); try (vm_compute; split; [intro; discriminate | reflexivity]).
+    try reflexivity; try (apply ir2; lia); try zc.
   apply X.
   - vm_compute. intros [H _]. apply H. reflexivity.
   - apply stub_absorbing; [reflexivity | lia].
@@ -370,7 +496,7 @@ Example vla_length_guard_ex_pass : runs (A c_len) (mk 0 (m_len 16383)) [] (mk 4 
 Proof.
   destruct (vla_length_guard_idiom 2 ltac:(lia) c_len cm 0 (m_len 16383) (Imm 4) (Imm 5) 5 (St 4) 16383 DINT) as [X _];
     try reflexivity; try (apply ir2; lia).
-  apply X. vm_compute. split; intro; discriminate.
+  apply X. zc.
 Qed.
 Example vla_length_guard_ex_fail : ~ Halts (A c_len) (mk 0 (m_len 16384)).
 Proof.
@@ -397,4 +523,52 @@ Proof. repeat split; reflexivity. Qed.
 Example stack_bound_edge : stack_size_rejected 2 16378 = false /\ (5 + 16378 + 1) * 2 = W 2 / 2
   /\ sgn 2 ((5 + 16378 + 1) * 2) = -32768.
 Proof. repeat split; reflexivity. Qed.
+Example post_init_gap_no_wrap_ex : (100 + 5) * 2 <= max_signed 2 /\ 0 <= 212 - 10 < W 2.
+Proof. apply (post_init_gap_no_wrap 2 ltac:(lia) 100 2 10 212); try reflexivity; zc. Qed.
+Example bool_size_idiom_ex : let c := code_of [IArith Aadd (St 4) (St 8) (Imm 7); IArith Aasr (St 4) (St 4) (Imm 3)] in
+  exists m', runs (A c) (mk 0 (sw 2 (zmem 16) 8 9)) [] (mk 2 m') /\ lw 2 m' 4 = 2.
+Proof.
+  intro c. destruct (bool_size_idiom 2 ltac:(lia) c cm 0 (sw 2 (zmem 16) 8 9) 4 (St 8) 9) as [R V]; try reflexivity; try lia.
+  eexists. split; [exact R | exact V].
+Qed.
+Example bool_size_matches_layout_ex : bool_size_word 2 9 = wrap 2 (array_size 2 DBOOL (sgn 2 9)).
+Proof. apply (bool_size_matches_layout 2 ltac:(lia)); [apply ir2; lia | zc]. Qed.
+Example vla_bool_negative_passes_space_guard_ex :
+  cond_holds 2 Cgeu (wrap 2 (wrap 2 0 - wrap 2 0)) (bool_size_word 2 (W 2 - 1)) = true.
+Proof. apply (vla_bool_negative_passes_space_guard 2 ltac:(lia)); lia || zc. Qed.
+Example vla_byte_space_guard_sound_ex : 0 <= sgn 2 90 /\ sgn 2 90 + 10 <= 100.
+Proof. apply (vla_byte_space_guard_sound 2 ltac:(lia) 100 10 90); try reflexivity; try lia; try (apply ir2; lia); zc. Qed.
+Example vla_space_sound_ex : 10 <= 100 - 90.
+Proof. apply (vla_space_sound 2 100 10 90); try reflexivity; try lia; zc. Qed.
+(* bool a[-1] with the length guard (w = 2): to the stub; bool a[9]: passes *)
+Definition c_blen := code_of [IJ (Imm 4); IHc Cleu (St 4) (Imm (max_length 2 DBOOL)); IJ (Imm 5); IHalt; IFlag 0; IJ (Imm 5); IHalt].
+Example vla_bool_length_guard_rejects_negative_ex : ~ Halts (A c_blen) (mk 0 (m_len 65535)).
+Proof.
+  destruct (vla_bool_length_guard_rejects_negative 2 ltac:(lia) c_blen cm 0 (m_len 65535) (Imm 4) (Imm 5) 5 (St 4) 65535) as [X _];
+    try reflexivity; try (apply ir2; lia).
+  apply X; [reflexivity|]. apply stub_absorbing; [reflexivity | lia].
+Qed.
+Example vla_bool_length_guard_passes_ex : runs (A c_blen) (mk 0 (m_len 9)) [] (mk 4 (m_len 9)).
+Proof.
+  destruct (vla_bool_length_guard_rejects_negative 2 ltac:(lia) c_blen cm 0 (m_len 9) (Imm 4) (Imm 5) 5 (St 4) 9) as [_ X];
+    try reflexivity; try (apply ir2; lia).
+  apply X. zc.
+Qed.
+Example bool_size_sound_ex : bool_size_word 2 32760 = array_size 2 DBOOL 32760 /\ array_size 2 DBOOL 32760 = 4095.
+Proof. split; reflexivity. Qed.
+Example bool_size_near_max_ex : bool_size_word 2 32761 = 61440 /\ bool_size_word 2 32767 = 61440 /\ W 2 - W 2 / 16 = 61440.
+Proof. repeat split; reflexivity. Qed.
+Example vla_bool_guards_sound_ex : sgn 2 9 + 7 < W 2 / 2 /\ bool_size_word 2 9 = array_size 2 DBOOL (sgn 2 9) /\ array_size 2 DBOOL (sgn 2 9) + 10 <= 100.
+Proof. apply (vla_bool_guards_sound 2 ltac:(lia) 100 10 9); try reflexivity; try lia; try (apply ir2; lia); zc. Qed.
 End Examples.
+
+(* Inexactness (safe direction) of the BOOL guards at the top seven lengths, witness at w = 2:
+   `bool a[32767]` needs 4096 bytes; a stack of 10000 words (accepted by __post_init__) with a gap
+   of 20000 bytes has room, yet the space guard sees size 61440 and reports stack_overflow. *)
+Theorem vla_bool_near_max_spurious_overflow :
+  stack_size_rejected 2 10000 = false /\
+  cond_holds 2 Cleu 32767 (wrap 2 (max_length 2 DBOOL)) = true /\          (* the length guard passes *)
+  array_size 2 DBOOL (sgn 2 32767) = 4096 /\ 4096 + 0 <= 20000 /\          (* it would fit *)
+  (* ... and is rejected *)
+  cond_holds 2 Cgeu (wrap 2 (wrap 2 20000 - wrap 2 0)) (bool_size_word 2 32767) = false.
+Proof. repeat split; try reflexivity. vm_compute; intro; discriminate. Qed.
